@@ -92,7 +92,10 @@ func sliceCases(thorough bool) []sliceCase {
 	}
 	add("[]float64{NaN,1,NaN,0}", func() any { return []float64{math.NaN(), 1, math.NaN(), 0} }, true, nil)
 	add("[]bool{true,false,true}", func() any { return []bool{true, false, true} }, true, nil)
-	add("[]rune(\"cab\")", func() any { return []rune("cab") }, true, func(v any) bool { r := v.([]rune); return sort.SliceIsSorted(r, func(i, j int) bool { return r[i] < r[j] }) })
+	add("[]rune(\"cab\")", func() any { return []rune("cab") }, true, func(v any) bool {
+		r := v.([]rune)
+		return sort.SliceIsSorted(r, func(i, j int) bool { return r[i] < r[j] })
+	})
 	add("[]byte(\"cab\")", func() any { return []byte("cab") }, true, func(v any) bool { return string(v.([]byte)) == "abc" })
 	add("[]uint16{3,1,2}", func() any { return []uint16{3, 1, 2} }, true, nil)
 	add("[]struct{A int;B string}", func() any {
@@ -321,6 +324,34 @@ func miscSpaces(thorough bool) []fspace {
 				return res{class: "compiled", nontrivial: true, ops: ops}
 			},
 			desc: func(i uint64) any { return map[string]any{"expr": q(en.At(i))} }})
+	}
+
+	// The zero Regexp value (the type is exported to templates, so `var re Regexp`
+	// is possible). The documentation does not define it: the behaviour is only
+	// classified, never a failure.
+	{
+		methods := []struct {
+			name string
+			call func(re builtin.Regexp)
+		}{
+			{"Match", func(re builtin.Regexp) { re.Match("a") }},
+			{"Find", func(re builtin.Regexp) { re.Find("a") }},
+			{"FindAll", func(re builtin.Regexp) { re.FindAll("a", -1) }},
+			{"FindAllSubmatch", func(re builtin.Regexp) { re.FindAllSubmatch("a", -1) }},
+			{"FindSubmatch", func(re builtin.Regexp) { re.FindSubmatch("a") }},
+			{"ReplaceAll", func(re builtin.Regexp) { re.ReplaceAll("a", "b") }},
+			{"ReplaceAllFunc", func(re builtin.Regexp) { re.ReplaceAllFunc("a", strings.ToUpper) }},
+			{"Split", func(re builtin.Regexp) { re.Split("a", -1) }},
+		}
+		out = append(out, fspace{name: "Regexp.zero", size: uint64(len(methods)),
+			eval: func(i uint64) res {
+				pv, p := catch(func() { methods[i].call(builtin.Regexp{}) })
+				if p {
+					return ok("zero-value-panics: "+kit.NormMsg(fmt.Sprint(pv)), false)
+				}
+				return ok("zero-value-usable", false)
+			},
+			desc: func(i uint64) any { return "builtin.Regexp{}." + methods[i].name }})
 	}
 
 	// Reverse and Sort
